@@ -9,7 +9,7 @@
    followed by Print Assumptions, and Examples (non-vacuity, the monitor rejects bad traces). *)
 From SC Require Import Lib.Prelude Lib.Int Lib.Host Model.FeeForwarder Proofs.FeeForwarder
   Run.C19 Proofs.FeeForwarderAllow Proofs.FeeForwarderFwd Proofs.C19Monitor Proofs.C19Final
-  Proofs.C19Debit Proofs.C19AuthTree Proofs.C19Examples.
+  Proofs.C19Debit Proofs.C19AuthTree Proofs.C19Persist Proofs.C19Examples.
 
 (* A forwarded call succeeds only with an authorisation entry SIGNED BY THE USER whose root
    invocation is the forwarder's `forward` over exactly (fee token, maximum fee, expiration ledger,
@@ -173,6 +173,25 @@ Theorem C19_allowance_outlives_live_until : forall c cs tok o s en,
 Proof. exact allowance_outlives. Qed.
 Print Assumptions C19_allowance_outlives_live_until.
 
+(* Stored state survives ledger gaps of any length: in every reachable state an Advance by any
+   number of ledgers changes nothing but the ledger sequence - token states (balances, supplies),
+   the allow-list (count, entries, indices), the target logs are identical - and every positive
+   allowance reads exactly the same until its own live_until ledger has passed, a zero one stays zero.
+   (Roles are constants of the model; the monitor requires the observed roles to stay as constructed.) *)
+Theorem C19_state_survives_ledger_gaps : forall c cs n st' r,
+  1 <= min_temp_ttl (c_host c) ->
+  let st := run c cs in
+  step_ok c st (Advance n) = Ok (st', r) ->
+  0 <= n /\ now st' = now st + n /\ toks st' = toks st /\ al st' = al st /\ logs st' = logs st /\
+  (forall t h, balance (get_tok st' t) h = balance (get_tok st t) h) /\
+  (forall t o s a l,
+     allowance_data (now st) (get_tok st t) o s = (a, l) -> 0 < a ->
+     allowance_data (now st') (get_tok st' t) o s = if l <? now st' then (0, 0) else (a, l)) /\
+  (forall t o s, fst (allowance_data (now st) (get_tok st t) o s) = 0 ->
+                 fst (allowance_data (now st') (get_tok st' t) o s) = 0).
+Proof. exact advance_persistence. Qed.
+Print Assumptions C19_state_survives_ledger_gaps.
+
 (* The executable monitor (the property as a boolean over observed calls, authorisation entries,
    outcomes and getter values) accepts every run of the model, and the model agrees with itself;
    it is what is run on the implementation's traces. *)
@@ -252,4 +271,15 @@ Example C19_monitor_rejects_allowance_not_spent :
 Proof. vm_compute. reflexivity. Qed.
 Example C19_monitor_rejects_allowance_outliving_expiry :
   snd (fst (check (tamper 8 (on_obs (put_alw 1 (40, 120))) ex_trace))) = 9%N.
+Proof. vm_compute. reflexivity. Qed.
+(* stored state lapses although no call changed it (here: across the final Advance): the executor
+   role is gone / the user's balance is gone / the allow-list enumeration is gone *)
+Example C19_monitor_rejects_lapsed_role :
+  snd (fst (check (tamper 8 (on_obs (set_exec [false; false; false; false])) ex_trace))) = 9%N.
+Proof. vm_compute. reflexivity. Qed.
+Example C19_monitor_rejects_lapsed_balance :
+  snd (fst (check (tamper 8 (on_obs (bump_bal 0 (-925))) ex_trace))) = 9%N.
+Proof. vm_compute. reflexivity. Qed.
+Example C19_monitor_rejects_lapsed_allowlist :
+  snd (fst (check (tamper 8 (on_obs (set_enum 0%N [])) ex_trace))) = 9%N.
 Proof. vm_compute. reflexivity. Qed.
